@@ -44,6 +44,18 @@ CLAIMED = {
  "C12": ("parity rules: cache-before-disk path analysis for membership/lookup answers, error-class closure comparison of the two search evaluators, pattern-error flow, operator-guard table agreement, single-reader checks for the compression suffix / root / naming switch, finite evaluation of the file namer",
          "Decides four parity conditions necessary for configuration independence: Exist/Get/GetByUUID consult the cache before the object file when caching or async is on; the indexed and the scan evaluator report the same error classes, return pattern errors and cannot reach the operator panic (callers validate against the same literal set); the compressed suffix is consulted only by namer, writer and reader and the namer appends it iff Compress; root and lower-case switch have one reader. Equality of whole observation traces across configurations is not decided.",
          "Trusts go/ssa, the effect tables, and the finite evaluator's model of fmt.Sprintf for %s-only formats.", "DESIGN.md 4 C12"),
+ "C02": ("finite abstract evaluation of the comparison core over {LT,EQ,GT} x 4 dynamic types x 9 functions (complete truth table); operator/normalisation table extraction and sibling agreement; dominance of the type guard; alias-write path analysis; structural plumbing checks",
+         "Decides the parts of search correctness that are visible in the code's shape: the comparators and the scan evaluator equal the specification on all 4x3 type/ordering cases and all seven operators (exhaustive finite evaluation, 116 cells); the indexed dispatch, the scan comparator and the scan guard handle exactly the same seven operators with seven distinct range functions; the descriptor's cast agrees with the index constructor's normalisation for all 15 accepted Go types; the class guard dominates every comparator call; nothing appends through an alias of the live index; And/Or/Len/Delete/Constrain are wired as specified. The arithmetic of the bisection and of the slice bounds in the range functions is NOT decided (needs loop invariants + solver).",
+         "Trusts go/ssa and the finite evaluator (checker/eval.go); these comparators are the only way the bisection touches values.", "DESIGN.md 4 C02"),
+ "C03": ("path analysis (check-before-write, accept-or-delete writers, canonicalise-before-check), per-iteration loop analysis of the all-fields check and the index delete, finite evaluation of the constraint decision table (24 cells), id-counter store check",
+         "Decides: every write into the live index inside the accepting insertion follows a successful all-fields uniqueness check; the live index is written only by the accepting insertion and the index delete; the all-fields check consults every field index and cannot succeed early; the field-level decision equals 'unique and (>1 holder or 1 holder that is not the object itself)' on all 24 abstract cases; a delete releases every field and both membership entries; uniqueness is judged after case normalisation; ids only advance by +1. That the equal range found by bisection is the true set of equal entries is not decided.",
+         "Trusts go/ssa, the finite evaluator with the equal-range search modelled as an input, and the effect tables.", "DESIGN.md 4 C03"),
+ "C14": ("ownership analysis: clone-in (store operand is the clone call), clone-out (provenance path analysis of cached memory to results and heap stores), owner-only access, kind-switch coverage of the recursive clone, type-witness use",
+         "Decides which API can hand out or retain a mutable reference to shared storage: the cache stores only results of the deep clone, cached memory never reaches a return value or a foreign heap store on any path, only the owner type touches the map, the deep clone has a recursing arm for Ptr/Slice/Map/Struct/Array, the iterator allocates per element, and the schema's retained type witness is only used for its type. Value equality of a clone with a JSON round trip is not decided.",
+         "Trusts go/ssa and the provenance tags of the path engine; unexported pointer fields are shared by documented design.", "DESIGN.md 4 C14"),
+ "C20": ("freshness (alias) path analysis of every value stored into a Search's result field; who-may-write analysis of index entries; id-counter store check; structural dedup check",
+         "Decides that a Search never holds a slice aliasing the live index on any path of any search entry (so later writes cannot change what it denotes), that index entries are immutable once published, that object ids are never reused at run time, and that the union dedups by object id. Nothing structural is left undecided; the decoder's counter arithmetic is not decided.",
+         "Trusts go/ssa and the provenance tags (Live is closed under loads and sub-slicing; make/copy/append-to-fresh are fresh).", "DESIGN.md 4 C20"),
 }
 
 NOT_BUILT = "check not built yet in this round (planned, see DESIGN.md section 4)"
